@@ -241,6 +241,8 @@ def show(n, depth=0, maxdepth=6):
     k = n.get("k")
     s = lambda x: show(x, depth + 1, maxdepth)
     if k == "lit":
+        if n["t"] == "bool":
+            return "true" if n["v"] else "false"
         return repr(n["v"]) if n["t"] == "str" else str(n["v"])
     if k in ("path", "p_path"):
         return n["p"]
